@@ -6,7 +6,7 @@ LEVEL = "proof"
 def check(run):
     n = 24 if run.tier == "quick" else 400
     ops = 300 if run.tier == "quick" else 2000
-    kvcommon.drive(run, "concurrent-cursors", n, ops, reopen=False, geometry=(60 if run.tier == "quick" else 1500), audit=True, uplink=(40 if run.tier == "quick" else 1500))
+    kvcommon.drive(run, "concurrent-cursors", n, ops, reopen=False, geometry=(60 if run.tier == "quick" else 1500), audit=True, uplink=(40 if run.tier == "quick" else 1500), skipfail=(60 if run.tier == "quick" else 3000))
     return run.finish(level=LEVEL, rule=kvcommon.RULE, assumptions=kvcommon.ASSUME)
 
 def replay(run, path):
